@@ -48,6 +48,7 @@ class Verifier:
             "impl",
             "signal_block",
             "type",
+            "service",
             "device",
             "uncategorized",
         ]
@@ -66,6 +67,7 @@ class Verifier:
         * impl
         * signal_block
         * type
+        * service
         * device
 
         """
